@@ -279,6 +279,28 @@ func testC19Local(t *testing.T) {
 					}
 				}
 			}
+			if i > 0 && rapid.IntRange(0, 3).Draw(c.rt, fmt.Sprintf("concurrent%d", i)) == 0 {
+				// the other replica patches too before anything is exchanged (a REST patch against a client's patch that
+				// is not pushed yet looks like this): neither target survives as a whole, but what the two patches emit
+				// has to bring both replicas to the SAME value
+				var edits2 []string
+				otherDoc := w.Reps[1-r].DT.(orda.Document)
+				t2 := c19Edit(c.rt, fmt.Sprintf("t%d.other", i), deepCopy(cur), 3, &edits2)
+				t2b, _ := json.Marshal(t2)
+				c.j.add(c19Patch{K: "concurrent-patch", R: 1 - r, Target: string(t2b)})
+				canon.WriteString("||" + string(t2b) + ";")
+				if _, e := otherDoc.PatchByJSON(string(t2b)); e != nil {
+					c.failf("concurrent patch %d on replica %d failed: %v\n  target: %s", i, 1-r, e, t2b)
+				}
+				if err := w.Quiesce(); err != nil {
+					c.failf("delivering the concurrent patches %d: %v", i, err)
+				}
+				if a, b := sim.Canon(w.Reps[0].DT.(orda.Document).GetValue()), sim.Canon(w.Reps[1].DT.(orda.Document).GetValue()); a != b {
+					c.failf("after two concurrent patches (step %d) and the exchange of their operations the replicas differ:\n  replica 0: %s\n  replica 1: %s\n  targets:   %s  ||  %s", i, a, b, tb, t2b)
+				}
+				labels["concurrent-patches-on-both-replicas"] = true
+				continue
+			}
 			if err := w.Quiesce(); err != nil {
 				c.failf("delivering patch %d: %v", i, err)
 			}
